@@ -80,7 +80,11 @@ class Ctx:
         for eid, vs in sorted(known.items()):
             e = entries[eid]
             print(f"KNOWN-FINDING: property={self.prop} {e['record']} [{len(vs)} case(s); e.g. {json.dumps(vs[0]['key'], sort_keys=True)[:300]}]")
-        rdir = os.path.join(common.VERIF, "replay", self.prop)
+        # runs against another tree than /repo (development: seeded changes, mutations) keep their replay and evidence
+        # files apart, so that evidence/ always describes /repo itself
+        alt = os.path.realpath(common.REPO) != "/repo"
+        outroot = os.path.join(common.VERIF, ".scratch", "other_tree") if alt else common.VERIF
+        rdir = os.path.join(outroot, "replay", self.prop)
         if os.path.isdir(rdir):
             for f in os.listdir(rdir):  # replay files always describe the latest run only
                 os.remove(os.path.join(rdir, f))
@@ -121,8 +125,8 @@ class Ctx:
         cov.update(self.extra)
         ev = {"property_id": self.prop, "tier": self.tier, "seed": self.seed, "level": self.level, "coverage": cov,
               "assumptions": self.assumptions, "wall_s": self.timer.s(), "violations": n_unknown, "notes": self.notes}
-        os.makedirs(os.path.join(common.VERIF, "evidence"), exist_ok=True)
-        with open(os.path.join(common.VERIF, "evidence", f"{self.prop}.json"), "w") as f:
+        os.makedirs(os.path.join(outroot, "evidence"), exist_ok=True)
+        with open(os.path.join(outroot, "evidence", f"{self.prop}.json"), "w") as f:
             json.dump(ev, f, indent=1, sort_keys=True, default=str)
         print(f"{self.prop} {self.tier}: states={self.states} traces={self.traces} events={self.events} cases={self.evaluations} "
               f"violations={n_unknown} known={sum(len(v) for v in known.values())} wall={self.timer.s()}s")
